@@ -227,4 +227,10 @@ theorem canon_eq_iff_canonStr_eq {e : Env} (hd : e.DupFree) {a b : Tree} (ia : a
   ⟨fun h => by simp only [canonStr, h],
    fun h => Canon.resolve_inj hd _ _ (canon_idsIn e a ia) (canon_idsIn e b ib) h⟩
 
+/-- A closed duplicate-free table with the same local name in two namespaces (non-vacuity). -/
+def envEx : Env :=
+  { namespaces := [[], ['u']], prefixes := [[], ['p']], names := [(['a'], 0), (['a'], 1), (['b'], 0)] }
+
+theorem envEx_dupFree : envEx.DupFree := ⟨by decide, by decide, by decide, by decide⟩
+
 end XotModel
